@@ -61,8 +61,7 @@ def catalogue(tier: str):
         drop_tasks=['c'] if tier == 'quick' else ['a', 'c'])
     add('chain2-f1-paused', 'chain2', 1, options={'paused_start': True},
         helpers=[('resume', {})])
-    add('prev-f2-ra0', 'prev', 2, scheduling={'runahead limit': 'P0'},
-        drop_tasks=[])
+    add('prevb-f2-ra0', 'prevb', 2, scheduling={'runahead limit': 'P0'})
     add('custom-f1', 'custom', 1)
     add('chain2-f2-holdcp1', 'chain2', 2, options={'holdcp': '1'})
     if tier == 'thorough':
